@@ -266,12 +266,16 @@ theorem step_led (e : EEnv) (c : ECall) : (e.step c).1.led = e.led ∨ (e.step c
     · exact h
     · rw [h]; exact led_addGas _ _
   | mvstake c amt =>
-    right; simp only [step, Led.step, ← getBal_led]
+    simp only [step, Led.step, ← getBal_led]
     by_cases h1 : e.getBal c < amt
-    · simp [h1]
+    · right; simp [h1]
     · by_cases h2 : amt < 0
-      · simp [h1, h2]
+      · right; simp [h1, h2]
       · simp only [h1, h2, if_false]
+        by_cases hnil : ((e.deployed c).isNone && (e.stakeC c).isNone && ((e.base.con c).isNone || e.base.stakeNil c)) = true
+        · left; simp only [hnil, if_true]; rfl
+        right
+        simp only [hnil, Bool.false_eq_true, if_false]
         cases hd : e.deployed c with
         | none =>
           have : (e.led.setBal c (e.getBal c - amt)).deployed c = none := hd
@@ -776,6 +780,53 @@ theorem run_mono (e : EEnv) (tr : List ECall) (x : Addr) (hx : ∀ c ∈ tr, ∀
       · rw [getBal_led, getBal_led, h1]
         exact ⟨Led.step_mono _ _ _ (hx c List.mem_cons_self) h, Led.step_nonneg _ _ h⟩
     exact Int.le_trans hstep.1 (ih _ (fun c' hc' => hx c' (List.mem_cons_of_mem _ hc')) hstep.2)
+
+end EEnv
+
+namespace EEnv
+
+theorem Led.step_burnt_mono (l : Led) (c : ECall) (h : l.NonNeg) : l.burnt ≤ (l.step c).burnt := by
+  cases c with
+  | send c dest amt => simp only [Led.step]; split; exact Int.le_refl _; split <;> exact Int.le_refl _
+  | mvstake c amt =>
+    simp only [Led.step]; split; exact Int.le_refl _; split; exact Int.le_refl _
+    split <;> exact Int.le_refl _
+  | burnAll c => show l.burnt ≤ l.burnt + l.getBal c; have := h.1 c; omega
+  | terminate c dest keep =>
+    simp only [Led.step]
+    split
+    · exact Int.le_refl _
+    · show l.burnt ≤ l.burnt + (stakeOf (l.base.con c) - (stakeOf (l.base.con c)).tdiv 2)
+      have h0 := h.2 c
+      have : (stakeOf (l.base.con c)).tdiv 2 ≤ stakeOf (l.base.con c) := by
+        exact Int.tdiv_le_self 2 h0
+      omega
+  | deploy => exact Int.le_refl _
+  | rd => exact Int.le_refl _
+  | set => exact Int.le_refl _
+  | get => exact Int.le_refl _
+  | rm => exact Int.le_refl _
+  | bal => exact Int.le_refl _
+  | stake => exact Int.le_refl _
+  | event => exact Int.le_refl _
+  | iter => exact Int.le_refl _
+  | item => exact Int.le_refl _
+  | itret => exact Int.le_refl _
+
+/-- explicit burns only grow: nothing an execution does un-burns coins -/
+theorem run_burnt_mono (e : EEnv) (tr : List ECall) (h : e.led.NonNeg) : e.burnt ≤ (run e tr).burnt := by
+  induction tr generalizing e with
+  | nil => exact Int.le_refl _
+  | cons c t ih =>
+    simp only [run]
+    have hstep : e.burnt ≤ (e.step c).1.burnt ∧ (e.step c).1.led.NonNeg := by
+      rcases step_led e c with h1 | h1
+      · have : (e.step c).1.burnt = e.burnt := congrArg Led.burnt h1
+        rw [this, h1]; exact ⟨Int.le_refl _, h⟩
+      · have : (e.step c).1.burnt = (e.led.step c).burnt := congrArg Led.burnt h1
+        rw [this, h1]; exact ⟨Led.step_burnt_mono _ _ h, Led.step_nonneg _ _ h⟩
+    exact Int.le_trans hstep.1 (ih _ hstep.2)
+
 
 end EEnv
 
